@@ -93,6 +93,9 @@ KNOWN = [
      c03("C03-known-group-of-bare-lookaround", [N("FollowedBy", ["empty"], ["lit", "a"]), N("Capture", ["ref", 0], "n")], guard=False)),
     ("C03", "lookbehind assertions accept an alternation of different widths and return a regex that re rejects (C10's input dimension)",
      c03("C03-known-lookbehind-alternation", [N("PrecededBy", ["lit", "x"], N("Either", ["lit", "a"], ["lit", "bc"]))], guard=False)),
+    ("C03", "a numeric Backreference followed by a pattern that starts with a digit merges into another escape (Backreference(7) + '42' "
+            "is the invalid octal escape '\\742'; found by the thorough-tier soak)",
+     c03("C03-known-backreference-digit", [N("Backreference", 7), ["call", "concat", ["ref", 0], "42"]], guard=False)),
     ("C03", "enclose()/EnclosedBy emit the enclosing pattern twice, so an enclosing pattern with a named group yields a regex with a "
             "duplicated group name",
      c03("C03-known-duplicate-group-name", [N("Capture", ["lit", "a"], "n"), ["call", "enclose", ["lit", "x"], ["ref", 0]]], guard=False)),
